@@ -249,6 +249,38 @@ def write_evidence(pid: str, tier: str, seed: int, level: str, coverage: dict,
     os.replace(tmp, os.path.join(EVIDENCE_DIR, f"{pid}.json"))
 
 
+def plan_phases(plan: dict) -> list[dict]:
+    """A plan is one phase, or several (`phases`: name, n_cases, cases_per_job, params);
+    the case indices of phase k start at k * 10**6, so run seeds and replay names stay
+    unique and the parameters of a case follow from its index."""
+    phases = plan.get("phases") or [{"name": "main", "n_cases": plan["n_cases"],
+                                     "cases_per_job": plan["cases_per_job"],
+                                     "params": plan.get("params", {})}]
+    return [dict(ph, offset=k * 10 ** 6) for k, ph in enumerate(phases)]
+
+
+def phase_of(phases: list[dict], index: int) -> dict:
+    return next(ph for ph in reversed(phases) if index >= ph["offset"])
+
+
+def phase_jobs(phases: list[dict], seed: int, pid: str, limit: int | None = None) -> list[dict]:
+    """Jobs of all phases, interleaved in proportion, so that a wall budget that stops
+    exploration early still covers every phase."""
+    keyed = []
+    for k, ph in enumerate(phases):
+        n, per, off = ph["n_cases"], ph["cases_per_job"], ph["offset"]
+        if limit is not None:
+            n = min(n, limit)
+        starts = list(range(0, n, per))
+        for j, start in enumerate(starts):
+            cases = [[off + i, mix(seed, pid, off + i)] for i in range(start, min(n, start + per))]
+            keyed.append(((j + 0.5) / len(starts), k,
+                          {"mode": "cases", "cases": cases, "params": ph["params"],
+                           "phase": ph["name"]}))
+    keyed.sort(key=lambda t: (t[0], t[1]))
+    return [j for _, _, j in keyed]
+
+
 def generic_main(prop, tier: str, seed: int) -> int:
     """Runs a standard (single observation per case) property."""
     pid = prop.ID
@@ -263,11 +295,9 @@ def generic_main(prop, tier: str, seed: int) -> int:
     harness_fail: list[str] = []
     retried = 0
     try:
-        n, per = plan["n_cases"], plan["cases_per_job"]
-        jobs = []
-        for start in range(0, n, per):
-            cases = [[i, mix(seed, pid, i)] for i in range(start, min(n, start + per))]
-            jobs.append({"mode": "cases", "cases": cases, "params": params})
+        phases = plan_phases(plan)
+        jobs = phase_jobs(phases, seed, pid)
+        per = max(ph["cases_per_job"] for ph in phases)
         # dispatch in slices so that the wall budget can stop exploration early
         slice_n = plan.get("slice") or max(pool.workers * 2, 1)
         done_jobs = 0
@@ -283,6 +313,8 @@ def generic_main(prop, tier: str, seed: int) -> int:
                     continue
                 for case in res["cases"]:
                     agg.add(case)
+                    agg.extra["cases_phase_" + job.get("phase", "main")] = \
+                        agg.extra.get("cases_phase_" + job.get("phase", "main"), 0) + 1
         explore_wall = time.monotonic() - t0
 
         # ---- violations: minimise, write replay, filter known findings
@@ -300,8 +332,9 @@ def generic_main(prop, tier: str, seed: int) -> int:
             v0 = case["violations"][0]
             # confirm in a fresh child: alone first, else after the earlier cases of
             # its batch (cross-case state is then part of the replayed history)
-            per = plan["cases_per_job"]
-            start = (case["index"] // per) * per
+            ph = phase_of(phases, case["index"])
+            per, off, params = ph["cases_per_job"], ph["offset"], ph["params"]
+            start = off + ((case["index"] - off) // per) * per
             prefix_full = [[i, mix(seed, pid, i)] for i in range(start, case["index"])]
             prefix, mc, mres, used = None, case["choices"], None, 0
             for cand_prefix in ([], prefix_full) if prefix_full else ([],):
@@ -409,9 +442,8 @@ def selftest_determinism(prop, seed: int, n: int) -> int:
     pins it) under a second hash seed, and compares per-case event-log digests."""
     disable_aslr()
     plan = prop.plan("quick", seed)
-    params = plan.get("params", {})
-    per = plan["cases_per_job"]
-    n = min(n, plan["n_cases"])
+    phases = plan_phases(plan)
+    per = max(ph["cases_per_job"] for ph in phases)
     configs = [("w16-h0", n_workers(), "0"), ("w3-h0", 3, "0")]
     if getattr(prop, "HASHSEED_INDEPENDENT", True):
         configs.append(("w16-h7", n_workers(), "7"))
@@ -421,10 +453,7 @@ def selftest_determinism(prop, seed: int, n: int) -> int:
         env["PYTHONHASHSEED"] = hs
         pool = Pool(prop.__name__, {"default": env}, workers)
         try:
-            jobs = []
-            for start in range(0, n, per):
-                cases = [[i, mix(seed, prop.ID, i)] for i in range(start, min(n, start + per))]
-                jobs.append({"mode": "cases", "cases": cases, "params": params})
+            jobs = phase_jobs(phases, seed, prop.ID, limit=n)
             d = {}
             for _, res in pool.run(jobs, default_cap=prop.CASE_CAP * per):
                 if "harness_error" in res:
